@@ -245,7 +245,7 @@ class World:
                 def mksub(fn):
                     @t.Subscription("%s.%s" % (sub_root, fn), schema_name=sn)
                     async def source(parent, args, ctx, info):
-                        cs = world.case
+                        cs = ctx.get("__cs") if isinstance(ctx, dict) and "__cs" in ctx else world.case
                         async for x in cs.source(fn, parent, args, ctx, info):
                             yield x
                 mksub(fn)
